@@ -441,6 +441,18 @@ func (c *Ctx) eval(sx *SX) Value {
 		s := c.evalT(args[0])
 		lo, hi := c.evalT(args[1]), c.evalT(args[2])
 		return mkStr(strArr(s), IAdd(strOff(s), lo), ISub(hi, lo))
+	case "bufstr":
+		// the bytes of a []byte value viewed as a string
+		v := c.eval(args[0])
+		sl, ok := v.(*SliceV)
+		if !ok {
+			c.fail("bufstr: not a slice")
+		}
+		sa, ok := c.state().mem[sl.Base].(*SymArrV)
+		if !ok {
+			c.fail("bufstr: no symbolic backing array")
+		}
+		return mkStr(sa.Arr, sl.Off, sl.Len)
 	case "same-str":
 		// structural identity: the same window of the same byte array
 		a, b := c.evalT(args[0]), c.evalT(args[1])
